@@ -22,8 +22,10 @@ type sessions struct {
 
 // destroy erases all sessions
 func (s *sessions) destroy() {
+	verifLock("want", "sessions", "w", s)
 	s.mux.Lock()
 	defer s.mux.Unlock()
+	defer verifLock("rel", "sessions", "w", s)
 	for k, e := range s.Entries {
 		e.destroy()
 		delete(s.Entries, k)
@@ -32,15 +34,19 @@ func (s *sessions) destroy() {
 
 // update replaces a session with the one provided or adds it as a new one
 func (s *sessions) update(sess *session) {
+	verifLock("want", "sessions", "w", s)
 	s.mux.Lock()
 	defer s.mux.Unlock()
+	defer verifLock("rel", "sessions", "w", s)
 	// if a session already exists for this, cancel its auto renew.
 	if i, ok := s.Entries[sess.realm]; ok {
 		if i != sess {
 			// Session in the sessions cache is not the same as one provided.
 			// Cancel the one in the cache and add this one.
+			verifLock("want", "session", "w", i)
 			i.mux.Lock()
 			defer i.mux.Unlock()
+			defer verifLock("rel", "session", "w", i)
 			if i.cancel != nil {
 				// Do not wait if a cancel is already pending: the session's auto renewal may be gone and the lock is held.
 				select {
@@ -58,8 +64,10 @@ func (s *sessions) update(sess *session) {
 
 // get returns the session for the realm specified
 func (s *sessions) get(realm string) (*session, bool) {
+	verifLock("want", "sessions", "r", s)
 	s.mux.RLock()
 	defer s.mux.RUnlock()
+	defer verifLock("rel", "sessions", "r", s)
 	sess, ok := s.Entries[realm]
 	return sess, ok
 }
@@ -110,8 +118,10 @@ func (cl *Client) addSession(tgt messages.Ticket, dep messages.EncKDCRepPart) {
 
 // update overwrites the session details with those from the TGT and decrypted encPart
 func (s *session) update(tgt messages.Ticket, dep messages.EncKDCRepPart) {
+	verifLock("want", "session", "w", s)
 	s.mux.Lock()
 	defer s.mux.Unlock()
+	defer verifLock("rel", "session", "w", s)
 	s.authTime = dep.AuthTime
 	s.endTime = dep.EndTime
 	s.renewTill = dep.RenewTill
@@ -122,8 +132,10 @@ func (s *session) update(tgt messages.Ticket, dep messages.EncKDCRepPart) {
 
 // destroy will cancel any auto renewal of the session and set the expiration times to the current time
 func (s *session) destroy() {
+	verifLock("want", "session", "w", s)
 	s.mux.Lock()
 	defer s.mux.Unlock()
+	defer verifLock("rel", "session", "w", s)
 	if s.cancel != nil {
 		// Do not wait if a cancel is already pending: the session's auto renewal may be gone and the lock is held.
 		select {
@@ -138,8 +150,10 @@ func (s *session) destroy() {
 
 // valid informs if the TGT is still within the valid time window
 func (s *session) valid() bool {
+	verifLock("want", "session", "r", s)
 	s.mux.RLock()
 	defer s.mux.RUnlock()
+	defer verifLock("rel", "session", "r", s)
 	t := time.Now().UTC()
 	if t.Before(s.endTime) && s.authTime.Before(t) {
 		return true
@@ -149,22 +163,28 @@ func (s *session) valid() bool {
 
 // tgtDetails is a thread safe way to get the session's realm, TGT and session key values
 func (s *session) tgtDetails() (string, messages.Ticket, types.EncryptionKey) {
+	verifLock("want", "session", "r", s)
 	s.mux.RLock()
 	defer s.mux.RUnlock()
+	defer verifLock("rel", "session", "r", s)
 	return s.realm, s.tgt, s.sessionKey
 }
 
 // timeDetails is a thread safe way to get the session's validity time values
 func (s *session) timeDetails() (string, time.Time, time.Time, time.Time, time.Time) {
+	verifLock("want", "session", "r", s)
 	s.mux.RLock()
 	defer s.mux.RUnlock()
+	defer verifLock("rel", "session", "r", s)
 	return s.realm, s.authTime, s.endTime, s.renewTill, s.sessionKeyExpiration
 }
 
 // JSON return information about the held sessions in a JSON format.
 func (s *sessions) JSON() (string, error) {
+	verifLock("want", "sessions", "r", s)
 	s.mux.RLock()
 	defer s.mux.RUnlock()
+	defer verifLock("rel", "sessions", "r", s)
 	var js []jsonSession
 	keys := make([]string, 0, len(s.Entries))
 	for k := range s.Entries {
@@ -192,13 +212,17 @@ func (s *sessions) JSON() (string, error) {
 // enableAutoSessionRenewal turns on the automatic renewal for the client's TGT session.
 func (cl *Client) enableAutoSessionRenewal(s *session) {
 	var timer *time.Timer
+	verifLock("want", "session", "w", s)
 	s.mux.Lock()
 	s.cancel = make(chan bool, 1)
+	verifLock("rel", "session", "w", s)
 	s.mux.Unlock()
 	go func(s *session) {
 		for {
+			verifLock("want", "session", "r", s)
 			s.mux.RLock()
 			w := (s.endTime.Sub(time.Now().UTC()) * 5) / 6
+			verifLock("rel", "session", "r", s)
 			s.mux.RUnlock()
 			if w < 0 {
 				return
@@ -243,9 +267,11 @@ func (cl *Client) renewTGT(s *session) error {
 // refreshSession updates either through renewal or creating a new login.
 // The boolean indicates if the update was a renewal.
 func (cl *Client) refreshSession(s *session) (bool, error) {
+	verifLock("want", "session", "r", s)
 	s.mux.RLock()
 	realm := s.realm
 	renewTill := s.renewTill
+	verifLock("rel", "session", "r", s)
 	s.mux.RUnlock()
 	cl.Log("refreshing TGT session for %s", realm)
 	if time.Now().UTC().Before(renewTill) {
@@ -260,12 +286,15 @@ func (cl *Client) refreshSession(s *session) (bool, error) {
 func (cl *Client) ensureValidSession(realm string) error {
 	s, ok := cl.sessions.get(realm)
 	if ok {
+		verifLock("want", "session", "r", s)
 		s.mux.RLock()
 		d := s.endTime.Sub(s.authTime) / 6
 		if s.endTime.Sub(time.Now().UTC()) > d {
+			verifLock("rel", "session", "r", s)
 			s.mux.RUnlock()
 			return nil
 		}
+		verifLock("rel", "session", "r", s)
 		s.mux.RUnlock()
 		_, err := cl.refreshSession(s)
 		return err
